@@ -126,7 +126,12 @@ def stat_cases(draw, tier):
     if mode == "user":
         c["user_chains"] = draw(gen.index_list(c["n"], 1, 6))
         c["overwrite"] = draw(st.booleans())
+        c["user_dtype"] = draw(st.sampled_from(["float64", "float32"]))   # torch's default dtype is what torch.bernoulli(torch.full(...)) gives a user
     return c
+
+
+def steps_positive(c, i):
+    return True
 
 
 def check_stats(c):
@@ -156,6 +161,8 @@ def check_stats(c):
     kw = dict(num_samples=ns, num_chains=nc_req, burn_in=c["burn_in"], steps=c["steps"])
     if "user_chains" in c:
         user = R.rows_from_indices(c["user_chains"], n)
+        if c.get("user_dtype") == "float32":
+            user = user.float()
         user_keep = user.clone()
         kw.update(initial_state=user, overwrite=c["overwrite"])
         chains = len(c["user_chains"])
@@ -196,7 +203,8 @@ def check_stats(c):
                 else:
                     require(x["init"] is not None and tuple(x["init"].shape) == (chains, n), "first-draw", "first draw must start from the user's chains")
             else:
-                require(x["init"] is cl[i - 1]["res"] or (x["init"] is not None and x["init"].data_ptr() == cl[i - 1]["res"].data_ptr()),
+                require(x["init"] is cl[i - 1]["res"] or (x["init"] is not None and x["init"].data_ptr() == cl[i - 1]["res"].data_ptr()) or
+                        (x["init"] is not None and x["init"].shape == cl[i - 1]["res_vals"].shape and torch.equal(x["init"].double(), cl[i - 1]["res_vals"].double()) and steps_positive(c, i)),
                         "chain-continuity", f"draw {i} does not continue the chains of draw {i - 1}")
         vals = torch.cat([o.apply(state, x["res_vals"].clone()).double().reshape(-1) for x in cl]).numpy()
         require(r["num_samples"] == total and r["num_samples"] >= ns, "count", f"reported num_samples {r['num_samples']} != chains*draws = {total} (requested {ns})")
@@ -208,7 +216,7 @@ def check_stats(c):
         se = math.sqrt(var / total)
         require(abs(r["std_error"] - se) <= 1e-9 * se + 1e-12 * sc, "std_error", f"{o.name}: reported std_error {r['std_error']} != sqrt(var/count) = {se}")
     if user is not None:
-        if c["overwrite"]:
+        if c["overwrite"] and user.dtype == torch.double:   # a tensor of another dtype cannot be updated in place (cf. the documented device exception)
             last = per_obs_calls[obs[-1].name][-1]["res_vals"]
             require(torch.equal(user, last), "overwrite", "with overwrite=True the user's initial_state must hold the final chain states")
         else:
